@@ -358,9 +358,10 @@ type runner struct {
 	okRes   []bool
 	failed  []bool
 	applied []appliedOp // what was actually committed / dropped, with the exact B-tree calls issued
-	snap    string      // correspondence case frozen at the first divergent reinstate (later passive states depend on file-level leftovers the model does not track)
-	tainted bool        // a reinstate already left the folders different: later reinstates inherit that
-	quiet   bool        // after a known divergence: keep running for the correspondence, stop comparing folders
+	snapDup bool
+	snap    string // correspondence case frozen at the first divergent reinstate (later passive states depend on file-level leftovers the model does not track)
+	tainted bool   // a reinstate already left the folders different: later reinstates inherit that
+	quiet   bool   // after a known divergence: keep running for the correspondence, stop comparing folders
 }
 
 func (r *runner) active() string  { return r.e.Folders[0] }
@@ -761,9 +762,30 @@ func (r *runner) reinstate(op histOp) {
 	} else if cls != "" {
 		r.tainted = true
 		r.snap = r.caseTerm()
+		r.snapDup = hasDupLids(r.active()) || hasDupLids(r.passive())
 		r.fail("reinstate-diverged:"+op.Drive+":"+cls, fmt.Sprintf("after ReinstateFailedDrives (%s drive) the passive folder differs from the active one, replication is on: %s", op.Drive, detail))
 		r.quiet = true
 	}
+}
+
+// hasDupLids: a registry table holds two records with the same logical id (C21's displaced-slot defect:
+// an update written to another slot than the stale copy).  The model takes the registry as a map, so such a
+// state is outside its stated assumption; the raw / failover oracles still judge the history.
+func hasDupLids(folder string) bool {
+	raw, err := sopx.ReadRaw(folder)
+	if err != nil {
+		return false
+	}
+	for _, s := range raw.Stores {
+		seen := map[sop.UUID]bool{}
+		for _, h := range s.Handles {
+			if seen[h.LogicalID] {
+				return true
+			}
+			seen[h.LogicalID] = true
+		}
+	}
+	return false
 }
 
 func (r *runner) caseTerm() string {
@@ -818,11 +840,17 @@ func runHistory(res *hx.Result, h history, idx int) {
 		}
 	}
 	term := r.caseTerm()
+	dup := hasDupLids(r.active()) || hasDupLids(r.passive())
 	if r.snap != "" {
 		term = r.snap
+		dup = r.snapDup
 		res.Count("case.frozen_at_divergent_reinstate")
 	}
-	res.AddCase(term, h)
+	if dup {
+		res.Count("case.skipped_c21_duplicate_lid")
+	} else {
+		res.AddCase(term, h)
+	}
 	res.Sample(map[string]any{"history": h, "results": r.okRes, "failed_after": r.failed})
 }
 
@@ -1033,7 +1061,7 @@ func runC27(cfg *hx.RunCfg) (*hx.Result, error) {
 	if n == 0 {
 		n = 36
 		if cfg.Tier == "thorough" {
-			n = 600
+			n = 300
 		}
 	}
 	idx := 0
